@@ -66,6 +66,20 @@ pub fn one_point(e: &[u8], alphabet: &[u8], f: &mut dyn FnMut(&[u8])) {
     }
 }
 
+/// every position replaced by every one of the 255 other byte values
+pub fn one_point_all_values(e: &[u8], f: &mut dyn FnMut(&[u8])) {
+    let mut buf = e.to_vec();
+    for i in 0..e.len() {
+        for v in 0..=255u8 {
+            if v != e[i] {
+                buf[i] = v;
+                f(&buf);
+            }
+        }
+        buf[i] = e[i];
+    }
+}
+
 /// 2-point replacements
 pub fn two_point(e: &[u8], alphabet: &[u8], f: &mut dyn FnMut(&[u8])) {
     let n = e.len();
